@@ -60,6 +60,17 @@ Theorem C09_charged_clock_moves_whole_intervals : forall last als s out s',
 Proof. exact charged_clock_moves_whole_intervals. Qed.
 Print Assumptions C09_charged_clock_moves_whole_intervals.
 
+(* proportional: a deduction changes nothing of an asset but its staked total, and touches no delegation and no
+   validator record — every position keeps its shares, every validator its share of the asset, so every
+   position of the asset shrinks by the one factor T'/T of C09_asset_step *)
+Theorem C09_asset_keeps_every_other_field : forall t n a b x, take_asset t n a = Some (b, x) -> set_a_tokens (a_tokens a) b = a.
+Proof. exact take_asset_touches_only_the_total. Qed.
+Print Assumptions C09_asset_keeps_every_other_field.
+Theorem C09_positions_keep_their_shares : forall als s out s',
+  deduct_assets_hook als s = Ok out s' -> delegations s' = delegations s /\ valinfos s' = valinfos s.
+Proof. exact take_rate_keeps_every_position_and_share. Qed.
+Print Assumptions C09_positions_keep_their_shares.
+
 Example C09_nonvacuous :
   let a := mkAsset 1 ONE 0 ONE (ONE / 2) 1000001 0 0 ONE 0 0 true in
   option_map (fun r => (a_tokens (fst r), snd r)) (take_asset 100 5 a) = Some (31250, 968751) /\ chargeable 100 a = true.
